@@ -128,7 +128,11 @@ def _mentions(node, name):
 def _walk(stmts, cfg, guards, out):
     for st in stmts:
         if isinstance(st, ast.Assign) and len(st.targets) == 1 and _target(st.targets[0]) is not None:
-            out.append((_target(st.targets[0]), st.value, tuple(guards), 'set'))
+            tg, v = _target(st.targets[0]), st.value
+            if isinstance(v, ast.BinOp) and isinstance(v.op, ast.Add) and isinstance(v.left, ast.Name) and v.left.id == tg:
+                out.append((tg, v.right, tuple(guards), 'add'))          # `x = x + e` is `x += e`
+            else:
+                out.append((tg, v, tuple(guards), 'set'))
         elif isinstance(st, ast.AugAssign) and _target(st.target) is not None:
             if not isinstance(st.op, ast.Add): raise NotFound('augmented assignment other than +=')
             out.append((_target(st.target), st.value, tuple(guards), 'add'))
@@ -159,7 +163,14 @@ def pieces(T, sched, mode, am):
     for tgt, val, guards, kind in events(T, sched, mode, am):
         if tgt != 'script': continue
         if kind == 'set' and _mentions(val, 'script'):
-            continue                                  # post-processing (format / replace): separate anchors
+            # post-processing (format / replace): separate anchors.  Anything else that rebuilds `script` from itself is not
+            # understood here: fall back rather than miss a piece
+            v = val
+            while isinstance(v, ast.Call) and isinstance(v.func, ast.Attribute) and v.func.attr in ('format', 'replace'):
+                v = v.func.value
+            if not (isinstance(v, ast.Name) and v.id == 'script'):
+                raise NotFound('script rebuilt from itself in an unknown way: ' + ast.unparse(val)[:60])
+            continue
         if guards:
             raise NotFound('template choice under a test that is not about scheduler/mode/array_mode')
         if not (isinstance(val, ast.Name) and val.id in PY2LEAN):
